@@ -271,6 +271,104 @@ func TestVerifC02(t *testing.T) {
 		}
 	})
 
+	// PAIRS of rare classes inside one call: the first candidate is rejected LATE (r = 0, r + k = n, s = 0: r and
+	// partly s have been computed and stored somewhere), and the accepted second candidate gives an r (or s) with
+	// leading zero bytes - whatever the first round left behind must not show through. The second nonce is found by
+	// search (one in 256 per leading zero byte).
+	{
+		var extra []*c02case
+		for _, rule := range []string{"r=0", "r+k=n", "s=0"} {
+			for _, want := range []string{"r", "s"} {
+				for q := 0; q < hk.N(2, 8); q++ {
+					d := keys[rng.Intn(len(keys))]
+					k1 := randScalar(rng)
+					var e []byte
+					var ok bool
+					switch rule {
+					case "r=0":
+						e, ok = solveDigest(d, k1, "r", bi(0))
+					case "r+k=n":
+						e, ok = solveDigest(d, k1, "r+k", bi(0))
+					default:
+						e, ok = solveDigest(d, k1, "s", bi(0))
+					}
+					if !ok {
+						continue
+					}
+					for tries := 0; tries < 3000; tries++ {
+						k2 := randScalar(rng)
+						stream := append(append(ref.B32(k1), ref.B32(k2)...), rng.Bytes(64)...)
+						m := ref.SM2Sign(d, e, stream)
+						if m.R == nil || m.Consumed != 64 {
+							continue
+						}
+						v := m.R
+						if want == "s" {
+							v = m.S
+						}
+						if ref.B32(v)[0] != 0 {
+							continue
+						}
+						extra = append(extra, &c02case{d: d, priv: ref.B32(d), e: e, stream: stream, chunk: chunks[rng.Intn(len(chunks))], plan: "random",
+							label: "late-rejection(" + rule + ")-then-leading-zero-" + want})
+						break
+					}
+				}
+			}
+		}
+		if len(extra) == 0 {
+			r.Inconclusive("c02: no (late rejection, short value) pair found")
+		}
+		hk.Parallel(len(extra), func(i int) { c02run(r, extra[i]) })
+	}
+
+	// the caller's BUFFERS are reused: key and digest live in two arrays that are overwritten in place call after
+	// call (key A, key B, A again, short encodings ...); and the RESULTS belong to the caller: every (r, s) handed out
+	// must still hold its value after all later calls
+	{
+		var pb, eb [32]byte
+		type kept struct{ r, s, wr, ws []byte }
+		var outs []kept
+		order := rng.Perm(len(cases))
+		n := 0
+		for _, ci := range order {
+			c := cases[ci]
+			if len(c.priv) > 32 || len(c.e) != 32 || len(c.stream) > 4096 {
+				continue
+			}
+			if n >= hk.N(600, 6000) {
+				break
+			}
+			n++
+			model := ref.SM2Sign(c.d, c.e, c.stream)
+			if model.R == nil {
+				continue
+			}
+			priv := pb[:len(c.priv)]
+			copy(priv, c.priv)
+			copy(eb[:], c.e)
+			rd := newScript(c.stream)
+			rd.chunk = c.chunk
+			var rr, ss []byte
+			var err error
+			p, msg, _, _ := hk.Try(func() { rr, ss, err = SignHashed(rd, priv, eb[:]) })
+			if p || err != nil || !bytes.Equal(rr, ref.B32(model.R)) || !bytes.Equal(ss, ref.B32(model.S)) {
+				r.Violation("signature-differs-from-standard:caller-reuses-key-and-digest-buffers", hk.D{"priv": hk.Hex(c.priv), "e": hk.Hex(c.e), "stream": hk.Hex(c.stream[:model.Consumed]),
+					"got_r": hexOrNil(rr), "got_s": hexOrNil(ss), "model_r": hk.Hex(ref.B32(model.R)), "model_s": hk.Hex(ref.B32(model.S)), "err": errStr(err), "panic": msg, "call_number": n})
+			} else {
+				outs = append(outs, kept{rr, ss, ref.B32(model.R), ref.B32(model.S)})
+			}
+			r.Eval("reused-buffers")
+		}
+		for i, o := range outs {
+			if !bytes.Equal(o.r, o.wr) || !bytes.Equal(o.s, o.ws) {
+				r.Violation("signature-handed-out-earlier-changed-by-later-calls", hk.D{"call_number": i, "r_now": hk.Hex(o.r), "r_returned": hk.Hex(o.wr), "s_now": hk.Hex(o.s), "s_returned": hk.Hex(o.ws)})
+				break
+			}
+		}
+		r.EvalN("results-kept-by-caller", len(outs))
+	}
+
 	// the source is the process-wide crypto/rand.Reader OBJECT (replaced by a scripted source for the call): same
 	// standard values, same 32-byte units, same rejection rules as for any other source
 	for i := 0; i < hk.N(24, 120); i++ {
